@@ -1,5 +1,6 @@
 //! Correspondence / oracle harness for arc-swap (real crate, `--cfg arc_swap_verif`).
 mod conc;
+mod access_mode;
 mod cache_mode;
 mod kinds;
 mod serde_mode;
@@ -221,6 +222,13 @@ fn main() {
             let seed: u64 = get("--seed").and_then(|s| s.parse().ok()).unwrap_or(1);
             let count: usize = get("--count").and_then(|s| s.parse().ok()).unwrap_or(200);
             for l in serde_mode::run(seed, count) {
+                println!("{}", l);
+            }
+        }
+        "access" => {
+            let seed: u64 = get("--seed").and_then(|s| s.parse().ok()).unwrap_or(1);
+            let count: usize = get("--count").and_then(|s| s.parse().ok()).unwrap_or(200);
+            for l in access_mode::run(seed, count) {
                 println!("{}", l);
             }
         }
